@@ -4,6 +4,8 @@
 package endpoints
 
 import (
+	endpoint "github.com/envoyproxy/go-control-plane/envoy/config/endpoint/v3"
+
 	"istio.io/istio/pilot/pkg/model"
 	"istio.io/istio/pkg/config"
 )
@@ -14,4 +16,9 @@ func VerifCheckMtlsEnabled(push *model.PushContext, authnPolicies model.PeerAuth
 	dr *config.Config, subset string, ep *model.IstioEndpoint, isWaypoint bool,
 ) bool {
 	return newMtlsChecker(push, authnPolicies, svcPort, dr, subset).checkMtlsEnabled(ep, isWaypoint)
+}
+
+// VerifIsMtlsEnabled exposes isMtlsEnabled (the reader of the tlsMode endpoint metadata).
+func VerifIsMtlsEnabled(lbEp *endpoint.LbEndpoint) bool {
+	return isMtlsEnabled(lbEp)
 }
